@@ -133,11 +133,12 @@ Proof.
      + cnt x (map fst (buffer (ch s1))) + cnt x (exits (pend (q s1))) + cnt x (pending_ids (pend (q s1))))%nat).
   { intros x. specialize (H x). rewrite E in H. unfold pending_ids, exits, wakes in *. rewrite !sel_cons in H.
     cbn [s1 set_q ch q log]. rewrite Hp.
-    destruct (dec_ev (epay e)); cbn [app flat_map] in H; rewrite ?cnt_app in H; rewrite ?cnt_nil in H; rewrite ?cnt_nil; lia. }
+    destruct (dec_ev (epay e)); rewrite ?flat_map_app, ?cnt_app in H; cbn [flat_map app] in H;
+      rewrite ?app_nil_r, ?cnt_nil in H; rewrite ?cnt_nil; lia. }
   destruct (dec_ev (epay e)) as [|m|k]; cbn [Model.dispatch].
   - apply Acct_unbusy. exact H1.
   - unfold handle_exit. apply Acct_sample. intros x. specialize (H1 x).
-    cbn [emit log ch q]. proj_cons. rewrite (cnt_cons x m). rewrite cnt_nil in H1. lia.
+    cbn [emit log ch q]. proj_cons. rewrite (cnt_cons x m). rewrite cnt_nil. lia.
   - unfold Model.handle_wake. unfold burst_ids in H1.
     destruct (nth_error bursts (N.to_nat k)) as [[t offs]|]; [|exact H1].
     apply Acct_fold, Acct_sample. rewrite app_nil_r. exact H1.
